@@ -32,6 +32,11 @@ def static_desc(rng, path_graph=False):
     desc["groups"] = {"public.kern1.L": names[:2], "public.kern2.R": names[2:4], "public.kern1.M": names[4:5]}
     desc["kerning"] = {("public.kern1.L", "public.kern2.R"): Fr(-30), (names[0], names[2]): Fr(7), (names[1], "public.kern2.R"): Fr(-12),
                        ("public.kern1.M", names[0]): Fr(15), (names[3], names[4]): Fr(-5)}
+    # kerning of several scripts whose first appearance in the kerning data is NOT in alphabetical script order (Greek, then
+    # Cyrillic, then Latin): a saved-and-reopened font lists its pairs sorted, the in-memory one as inserted
+    for k, (nm, cp) in enumerate([("kx.beta", 0x3B2), ("kx.gamma", 0x3B3), ("kx.be-cy", 0x431), ("kx.ve-cy", 0x432), ("kx.x", 0x78), ("kx.y", 0x79)]):
+        desc["glyphs"].append({"name": nm, "unicodes": [cp], "width": 500, "contours": [], "components": [], "anchors": []})
+    desc["kerning"] = dict([(("kx.beta", "kx.gamma"), Fr(-21)), (("kx.be-cy", "kx.ve-cy"), Fr(-22))] + list(desc["kerning"].items()) + [(("kx.x", "kx.y"), Fr(-23))])
     desc["lib"] = {"public.openTypeCategories": {names[-1]: "mark", names[0]: "base"},
                    "com.github.googlei18n.ufo2ft.filters": [{"name": "propagateAnchors", "pre": True}]}
     desc["features"] = "languagesystem DFLT dflt;\nlanguagesystem latn dflt;\n"
@@ -218,14 +223,18 @@ def main():
         # a static master after -- against the same calls with fresh dicts on fresh sources
         def kern_family(lib):
             upper, lower = list("ABCDEFGH"), list("abcdefgh")
+            # (Greek and Cyrillic blocks too: with variable features the pairs of all masters are gathered in a SET, and the
+            # scripts' lookups must come out in one order whatever that set's iteration order is)
+            greek, cyr = ["alpha", "beta", "gamma", "delta"], ["a-cy", "be-cy", "ve-cy", "ge-cy"]
+            cpof = dict({nm: ord(nm) for nm in upper + lower}, **{nm: 0x3B1 + j for j, nm in enumerate(greek)}, **{nm: 0x430 + j for j, nm in enumerate(cyr)})
             def m(k):
                 gl = []
-                for j, nm in enumerate(upper + lower):
+                for j, nm in enumerate(upper + lower + greek + cyr):
                     w = 300 + 60 * k
-                    gl.append({"name": nm, "unicodes": [ord(nm)], "width": Fr(500 + 10 * (j % 7) + 40 * k), "components": [], "anchors": [],
+                    gl.append({"name": nm, "unicodes": [cpof[nm]], "width": Fr(500 + 10 * (j % 7) + 40 * k), "components": [], "anchors": [],
                                "contours": [[(Fr(50), Fr(0), "line"), (Fr(50 + w), Fr(0), "line"), (Fr(50 + w), Fr(600), "line"), (Fr(50), Fr(600), "line")]]})
                 groups, kerning = {}, {}
-                for block in (upper, lower):
+                for block in (upper, lower, greek, cyr):
                     firsts = block[::2]
                     for j in range(0, len(block), 2):
                         groups["public.kern1." + block[j]] = block[j:j + 2]
@@ -233,7 +242,7 @@ def main():
                     for a, x in enumerate(firsts):
                         for b, y in enumerate(firsts):
                             kerning[("public.kern1." + x, "public.kern2." + y)] = Fr(-(10 + 7 * a + 3 * b) * (k + 1))
-                return {"glyphs": gl, "glyphOrder": upper + lower, "groups": groups, "kerning": kerning, "lib": {}, "features": "",
+                return {"glyphs": gl, "glyphOrder": upper + lower + greek + cyr, "groups": groups, "kerning": kerning, "lib": {}, "features": "",
                         "info": {"familyName": "Hist", "styleName": "M%d" % k, "unitsPerEm": 1000, "ascender": 800, "descender": -200}}
             return dsgen.make_designspace(random.Random(7), [m(0), m(1)], lib)
         # (the key as fontTools exports it -- an Option object -- for one library, its plain name for the other)
